@@ -28,6 +28,29 @@ use vh::*;
 // ---------------------------------------------------------------------------
 // dialect wrappers
 
+thread_local! {
+    /// bytes copied to the heap by the call site of known finding F5 during the current run: a `substr` call whose
+    /// first argument is an INLINE small atom and which makes the heap grow (Allocator::new_substr copies the slice
+    /// without consulting the heap limit). Only this call site is counted; the `sample` event reports the sum.
+    static F5_BYTES: std::cell::Cell<usize> = const { std::cell::Cell::new(0) };
+}
+
+fn f5_site(a: &Allocator, opb: &[u8], args: NodePtr) -> bool {
+    if opb != [12] {
+        return false;
+    }
+    match a.sexp(args) {
+        clvmr::allocator::SExp::Pair(first, _) => matches!(a.node(first), clvmr::allocator::NodeVisitor::U32(_)),
+        _ => false,
+    }
+}
+
+fn f5_note(site: bool, h0: usize, a: &Allocator, r: &Response) {
+    if site && r.is_ok() && a.heap_size() > h0 {
+        F5_BYTES.with(|c| c.set(c.get() + (a.heap_size() - h0)));
+    }
+}
+
 /// records the outcome of every cryptographic operator call (witnesses for the specification)
 struct Witness<'a, D: Dialect> {
     inner: &'a D,
@@ -81,7 +104,9 @@ impl<D: Dialect> Dialect for Witness<'_, D> {
         }
         let crypto = is_crypto(&opb, fl, self.unaware, false);
         let (a0, h0) = (a.atom_count(), a.heap_size());
+        let site = f5_site(a, &opb, args);
         let r = self.inner.op(a, op, args, max_cost, ext);
+        f5_note(site, h0, a, &r);
         if crypto {
             let w = match &r {
                 Ok(Reduction(cost, node)) => {
@@ -328,6 +353,7 @@ fn run_one(out: &mut Out, case: u64, prog: &Value, env: &Value, cfg: &Cfg, line_
             }
         })));
         let fl = flags(cfg2.flags);
+        F5_BYTES.with(|c| c.set(0));
         let (result, wit) = match cfg2.dialect {
             "chia" => {
                 let d = ChiaDialect::new(fl);
@@ -364,7 +390,7 @@ fn run_one(out: &mut Out, case: u64, prog: &Value, env: &Value, cfg: &Cfg, line_
             m.1 = m.1.max(a.pair_count());
             m.2 = m.2.max(a.heap_size());
         }
-        json!({"al": al, "wit": wit, "end": end})
+        json!({"al": al, "wit": wit, "end": end, "f5": F5_BYTES.with(|c| c.get())})
     });
     verif_hook::set_observer(None);
     let r = match res {
@@ -389,7 +415,7 @@ fn run_one(out: &mut Out, case: u64, prog: &Value, env: &Value, cfg: &Cfg, line_
     }
     let m = maxes.borrow();
     out.emit(&json!({"ev": "sample", "case": case, "variant": cfg.variant, "atoms": m.0, "pairs": m.1, "heap": m.2,
-        "limit": cfg.heap_limit.map(|h| h as i64).unwrap_or(-1)}));
+        "limit": cfg.heap_limit.map(|h| h as i64).unwrap_or(-1), "f5": r.get("f5").and_then(|x| x.as_u64()).unwrap_or(0)}));
     *line_no += 1;
     let mut end = r["end"].clone();
     end["ev"] = json!("end");
@@ -433,7 +459,9 @@ impl Dialect for RuntimeWitness<'_> {
         let opb = a.atom(op).as_ref().to_vec();
         let crypto = is_crypto(&opb, 0, false, true);
         let (a0, h0) = (a.atom_count(), a.heap_size());
+        let site = f5_site(a, &opb, args);
         let r = self.inner.op(a, op, args, max_cost, ext);
+        f5_note(site, h0, a, &r);
         if crypto {
             let w = match &r {
                 Ok(Reduction(cost, node)) => {
